@@ -4,8 +4,8 @@ ZSTD_entropyCompressSeqStore_internal = literals section, sequences-section head
 stream; ZSTD_compressBlock_internal / ZSTD_compress_frameChunk = the 3-byte block header in front of it).
 
 The compressor's match finders are an ORACLE here: they hand over a parse of the block (a literals buffer and a list of sequences);
-the functions below say which bytes are emitted for that parse once the entropy DECISIONS are taken (literals mode, table mode per
-symbol type).  `Lemmas/BlockRT.lean` proves that the decoder model (`Block.decodeBlock`, `Frame.decompressAll`) maps these bytes back
+the functions below say which bytes are emitted for that parse once the entropy DECISIONS are taken (literals mode - raw, RLE,
+Huffman with a new table, Huffman with the table of the previous block = treeless -, table mode per symbol type).  `Lemmas/BlockRT.lean` proves that the decoder model (`Block.decodeBlock`, `Frame.decompressAll`) maps these bytes back
 to the block content for EVERY valid parse (`block_roundtrip`, `frame_roundtrip_compressed`).
 
 Table modes: all four of `symbolEncodingType_e`: `set_basic` (predefined tables), `set_rle`, `set_compressed` (a table described in the
@@ -73,20 +73,30 @@ deriving Repr, DecidableEq, Inhabited
 def Tables.resolve (prev t : Tables) : Tables :=
   { ll := t.ll.resolve prev.ll, of := t.of.resolve prev.of, ml := t.ml.resolve prev.ml }
 
+/-- the Huffman table a later block of the frame may re-use (`prevCBlock->entropy.huf`: `CTable` with
+`repeatMode != HUF_repeat_none`): the weights of symbols `0 .. maxSymbolValue` and the table depth -/
+abbrev HufTab := Array Nat × Nat
+
 /-- what ZSTD_compressLiterals does with the literals: ZSTD_noCompressLiterals | ZSTD_compressRleLiteralsBlock | Huffman with a new
-table whose weights are `ws ++ [last]` (depth `tableLog`), described in the direct 4-bit form (`LitEnc.hufLiterals`) -/
+table whose weights are `ws ++ [last]` (depth `tableLog`), described in the direct 4-bit form (`LitEnc.hufLiterals`) | Huffman with
+the table of the previous block with Huffman literals, no tree description (`hType = set_repeat`, `LitEnc.treelessLiterals`) |
+Huffman with a new table described the way the whole of HUF_writeCTable_wksp describes it: weights FSE-compressed under the normalised
+counts `norm` / `nlog` when that is smaller than the direct form (`LitEnc.hufLiteralsFse`) -/
 inductive LitChoice where
   | raw
   | rle
   | huffman (ws : List Nat) (last : Nat) (tableLog : Nat)
+  | treeless
+  | huffmanFse (ws : List Nat) (last : Nat) (tableLog : Nat) (norm : Array Int) (nlog : Nat)
 deriving Repr, DecidableEq, Inhabited
 
 /-- the literals as Huffman symbols -/
 def symsOf (lits : ByteArray) : List Nat := lits.data.toList.map UInt8.toNat
 
 /-- ZSTD_compressLiterals: the literals section.  When the Huffman path yields nothing (`HUF_compress*` returns 0 or an error) the
-C function falls back to ZSTD_noCompressLiterals; so does the model. -/
-def litSection (c : LitChoice) (lits : ByteArray) : ByteArray :=
+C function falls back to ZSTD_noCompressLiterals; so does the model.  `hp` = the table a `treeless` section re-uses (`prevHuf`; only
+looked at for `.treeless`; without one HUF_compress*_repeat cannot re-use anything: the model emits the literals raw). -/
+def litSection (c : LitChoice) (lits : ByteArray) (hp : Option HufTab := none) : ByteArray :=
   match c with
   | .raw => rawLiterals lits
   | .rle => rleLiterals lits
@@ -94,6 +104,29 @@ def litSection (c : LitChoice) (lits : ByteArray) : ByteArray :=
     match hufLiterals (ws.toArray.push last) log (symsOf lits) with
     | some sec => sec
     | none => rawLiterals lits
+  | .treeless =>
+    match hp with
+    | some (w, log) =>
+      match treelessLiterals w log (symsOf lits) with
+      | some sec => sec
+      | none => rawLiterals lits
+    | none => rawLiterals lits
+  | .huffmanFse ws last log norm nlog =>
+    match hufLiteralsFse (ws.toArray.push last) log norm nlog (symsOf lits) with
+    | some sec => sec
+    | none => rawLiterals lits
+
+/-- the Huffman table the NEXT block may re-use (`nextEntropy->huf` after ZSTD_compressLiterals): the function starts with
+`ZSTD_memcpy(nextHuf, prevHuf, sizeof(*prevHuf))`; only the path "new table, Huffman output kept" leaves a new table there
+(`nextHuf->repeatMode = HUF_repeat_check`); raw and RLE literals, the fallbacks to them (which copy `prevHuf` again) and a re-used
+table leave the previous one.  `none` = no block of the frame has written a table yet. -/
+def nextHuf (hp : Option HufTab) (c : LitChoice) (lits : ByteArray) : Option HufTab :=
+  match c with
+  | .huffman ws last log =>
+    if (hufLiterals (ws.toArray.push last) log (symsOf lits)).isSome then some (ws.toArray.push last, log) else hp
+  | .huffmanFse ws last log norm nlog =>
+    if (hufLiteralsFse (ws.toArray.push last) log norm nlog (symsOf lits)).isSome then some (ws.toArray.push last, log) else hp
+  | _ => hp
 
 /-- ZSTD_entropyCompressSeqStore_internal, "Sequences Header":
   `if (nbSeq < 128) *op++ = (BYTE)nbSeq;`
@@ -122,8 +155,9 @@ def seqSection (t : Tables) (seqs : List SeqIn) (prev : Tables := {}) : ByteArra
 
 /-- ZSTD_entropyCompressSeqStore_internal: the body of a compressed block = literals section ++ sequences section.
 (`dstCapacity`, and the return value 0 "not compressible" that makes the caller emit a raw block, are decisions: not modelled.) -/
-def serializeBlockBody (c : LitChoice) (lits : ByteArray) (t : Tables) (seqs : List SeqIn) (prev : Tables := {}) : ByteArray :=
-  litSection c lits ++ seqSection t seqs prev
+def serializeBlockBody (c : LitChoice) (lits : ByteArray) (t : Tables) (seqs : List SeqIn) (prev : Tables := {})
+    (hp : Option HufTab := none) : ByteArray :=
+  litSection c lits hp ++ seqSection t seqs prev
 
 /-- the tables the NEXT block may repeat (`nextEntropy->fse` after ZSTD_entropyCompressSeqStore_internal): a block without sequences
 returns early after `ZSTD_memcpy(&nextEntropy->fse, &prevEntropy->fse, ..)` and leaves them as they were; `none` = no block with
@@ -182,15 +216,18 @@ def repStart : Rep.R := ⟨1, 4, 8⟩
 /-- the block loop of ZSTD_compress_frameChunk for a given list of block decisions; `rep` = the encoder's repeat-offset history
 (`prevCBlock->rep`), advanced by compressed blocks only: a block emitted raw or RLE leaves the history as it was (the confirm step is
 skipped), exactly as the decoder does not touch its history on such blocks.  `prev` = the sequence tables a `set_repeat` refers to
-(`prevCBlock->entropy.fse`), threaded the same way (`nextTables`). -/
-def serializeBlocks2 (x : ByteArray) (bs : List BlockChoice2) (pos : Nat) (rep : Rep.R) (prev : Option Tables := none) : ByteArray :=
+(`prevCBlock->entropy.fse`), threaded the same way (`nextTables`); `hp` = the Huffman table treeless literals re-use
+(`prevCBlock->entropy.huf`), threaded the same way (`nextHuf`). -/
+def serializeBlocks2 (x : ByteArray) (bs : List BlockChoice2) (pos : Nat) (rep : Rep.R) (prev : Option Tables := none)
+    (hp : Option HufTab := none) : ByteArray :=
   match bs with
   | [] => ByteArray.empty
-  | .raw n :: rest => noCompressBlock rest.isEmpty x pos n ++ serializeBlocks2 x rest (pos + n) rep prev
-  | .rle b n :: rest => rleCompressBlock rest.isEmpty b n ++ serializeBlocks2 x rest (pos + n) rep prev
+  | .raw n :: rest => noCompressBlock rest.isEmpty x pos n ++ serializeBlocks2 x rest (pos + n) rep prev hp
+  | .rle b n :: rest => rleCompressBlock rest.isEmpty b n ++ serializeBlocks2 x rest (pos + n) rep prev hp
   | .compressed c t lits raws :: rest =>
-    compressedBlock rest.isEmpty (serializeBlockBody c lits t (storeAll rep raws).1 (prev.getD {})) ++
+    compressedBlock rest.isEmpty (serializeBlockBody c lits t (storeAll rep raws).1 (prev.getD {}) hp) ++
       serializeBlocks2 x rest (pos + parseLen lits raws) (storeAll rep raws).2 (nextTables prev t (storeAll rep raws).1)
+        (nextHuf hp c lits)
 
 /-- a whole frame: ZSTD_writeFrameHeader, the blocks, ZSTD_writeEpilogue (`Serialize.epilogue`) -/
 def serializeFrame2 (a : HeaderW.HArgs) (blocks : List BlockChoice2) (x : ByteArray) : ByteArray :=
